@@ -9,10 +9,19 @@ LEVEL_TEXT = ("Lean theorems over a fault model of the time-limited blocks whose
               "timeout first, which multi-list appends it performs): for every fault point in every block the handler leaves the function's string equal "
               "to the committed one, make_changes commits nothing for it, and the committed library triple is unchanged — hence sound whenever it was. "
               "The fault model is tied to the code by deterministic injection of genuine SIGALRM timeouts at every distinct (block, statement) site "
-              "of real generation runs (sys.monitoring line events inside ESR's own time_limit), followed by the C03 oracle on the resulting library.")
+              "of real generation runs (sys.monitoring line events inside ESR's own time_limit), followed by the C03 oracle on the resulting library. "
+              "Stale records: a handler that restores string and sympy object but not the chain leaves `chain ++ [nan]`; later blocks of the same call may "
+              "commit it (`runCall`); `fault_schedule_sound_with_verifier` proves for every schedule of faults (any number, the same site in every round) "
+              "that StepSound steps plus a verifier un-merging every row with a marker not justified by a parameter loss (`nanUnjustified`) end in a C03-sound "
+              "row, `verifier_needed` that without the verifier the 2-step schedule of seed C15c publishes an unsound row, and `check_results_shape` "
+              "(decide over the regenerated `verifier` table: parse inside the try, handler un-merges, the only skip is the parameter-count test) that "
+              "today's check_results is such a verifier. Injection also has a PERSISTENT mode: a (block, statement(+twin in the other arm of a flag "
+              "conditional), function selector all/lineage/exact) fault fires in every activation that reaches it - every round, both do_sympy loops, check_results.")
 TECHNIQUE = "Lean 4 proof over an extracted fault/effect model + deterministic timeout injection into real generation runs"
 RULE = ("one case = one generation run with a timeout delivered before the n-th line event of the k-th time_limit activation; sites are the distinct "
-        "(function, with-line, line about to run, previous line) tuples seen in a recording run; non-trivial = the fault actually fired; distinct by site and activation")
+        "(function, with-line, line about to run, previous line) tuples seen in a recording run; or one generation run with a persistent fault "
+        "(block, statement line(s), function selector) firing in every activation that reaches it; non-trivial = a fault actually fired; "
+        "distinct by site and activation / by persistent fault specification")
 EXPLANATION = LEVEL_TEXT
 TRUSTED = ["harness/extractors/fault.py (block/handler/effect extraction: may-analysis of the block bodies, must-analysis of what the handlers undo)",
            "harness/extractors/_norm_c15.py (AST normalisations applied before extraction, each effect-preserving for all inputs: N1 canonical names of the "
@@ -23,8 +32,14 @@ TRUSTED = ["harness/extractors/fault.py (block/handler/effect extraction: may-an
            "library and builtin calls inside the blocks do not change the tracked lists handed to them as elements (`str(sym_fun[i])`, `all_fun.index(str_fun[i])`); "
            "a tracked list handed over whole to anything but a reader builtin or an inlined helper is an extraction error",
            "CPython delivers the Python-level signal handler before the next line of the interrupted frame",
+           "persistent faults: the function of an activation is read from the frame as `L[V]` of the enclosing `for V in range(len(L))` loop (ast of the staged "
+           "source; `keys[j]` in expand_or_factor); when that cannot be read only the selector `all` fires",
+           "Model/Fault.checkRow is a hand model of check_results' per-row decision; the facts tying it to the source are the regenerated `verifier` table "
+           "(harness/extractors/fault.py:analyse_verifier) and the persistent-fault runs through the real check_results",
            "faults are injected at line granularity in simplifier.py frames only; interruption points inside sympy callee frames are covered by the model (any statement may fail anywhere) but not injected"]
-ASSUMPTIONS = ["soundness of completed (non-interrupted) rewrite steps is C03's hypothesis StepSound, sampled by the oracle"]
+ASSUMPTIONS = ["soundness of completed (non-interrupted) rewrite steps is C03's hypothesis StepSound, sampled by the oracle",
+               "StepSound.interrupted (what an interrupted step leaves in the chain is harmless for exactness or is the marker) and `rewriting never adds "
+               "parameters` are hypotheses of fault_schedule_sound_with_verifier, sampled by the persistent-fault injection + C03 oracle"]
 # When the translator cannot read today's blocks the committed table stands in as a hand-written fault model; what ties it to
 # the code is then the exhaustive dynamic oracle below, which does not use the table at all: a genuine SIGALRM at every distinct
 # (block, statement) site of real generation runs (all sites, thorough plan) + completion + the C03 library oracle.
